@@ -176,9 +176,16 @@ class Traced(collections.abc.Coroutine):
         self.tr, self.coro, self.kind = tr, coro, kind
         self.tid = tr.new_tid(kind)
         self.finished = False
+        self.started = False
+        if kind == "connect":
+            tr.pc += 1
 
     def _step(self, how, fn, *a):
         tr = self.tr
+        if not self.started:
+            self.started = True
+            if self.kind == "connect":
+                tr.pc -= 1
         tr.begin(self, how)
         try:
             r = fn(*a)
@@ -224,6 +231,8 @@ class Tracer:
         self.nlabels = 0
         self.loop = None
         self.max_rx = 0
+        self.pc = 0               # connect() coroutines created and not yet started
+        self.fin_task = None      # the task whose final step is being executed (done() is not yet true)
         self.states = []          # client._state after every block (consecutive duplicates removed)
 
     def new_tid(self, kind):
@@ -240,15 +249,17 @@ class Tracer:
         c = self.client
         if c is None:
             return None
-        cur = asyncio.current_task(self.loop) if finishing else None
+        if finishing:
+            self.fin_task = asyncio.current_task(self.loop)
+        fin = self.fin_task
 
         def alive(t):
-            return t is not None and not t.done() and not (finishing and t is cur)
+            return t is not None and not t.done() and t is not fin
         w = c.writer
         rd = c.reader
         return {"st": c._state.value, "lock": c.lock.locked(), "rx": alive(c._receive_task),
                 "cons": alive(c._process_queue_task), "wid": (w.wid if w is not None else -1),
-                "wclosed": bool(w.closed) if w is not None else False, "q": c.queue.qsize(),
+                "wclosed": bool(w.closed) if w is not None else False, "q": c.queue.qsize(), "pc": self.pc,
                 "buf": len(rd._buffer) if rd is not None else 0}
 
     def mark(self, *e):
@@ -257,6 +268,7 @@ class Tracer:
             self.cur["ev"].append(list(e) + [self.snap()])
 
     def begin(self, t, how):
+        self.fin_task = None
         is_cur_rx = self.client is not None and self.tasks.get(id(t)) is self.client._receive_task
         self.cur = {"kind": t.kind, "tid": t.tid, "how": how, "ev": [], "cur_rx": is_cur_rx,
                     "vt": self.loop.time()}
@@ -304,7 +316,7 @@ class Tracer:
                 live += 1
         fin = b.get("end") in ("ret",) or str(b.get("end", "")).startswith("exc:")
         if fin and b.get("kind") == "_receive_loop":
-            live -= 1 if not b.get("how", "").startswith("throw") else 0
+            live -= 1 if b.get("how", "") != "throw:CancelledError" else 0
         self.max_rx = max(self.max_rx, live)
         for e in b["ev"] + [[b["snap"]]]:
             sn = e[-1]
@@ -514,7 +526,7 @@ def labelise(blocks):
                 raise Unlabelled(f"connect block {evs} {end}")
         elif k == "_receive_loop":
             cur = b["cur_rx"]
-            if how.startswith("throw"):
+            if how == "throw:CancelledError":
                 if end != "exc:CancelledError":
                     raise Unlabelled("receive loop survived a cancellation")
                 add("ARxCancelled" if cur else "AOldRxCancelled", snap)
@@ -536,6 +548,8 @@ def labelise(blocks):
                     s = e[-1]
                     slept30 = any(x[0] == "slept" and x[1] == 30 for x in evs[:i])
                     cb = _cb_of(evs, i)
+                    if cb in ("CbRet", "CbRaise") and not _has(evs[i:], "spawn", "connect"):
+                        raise Unlabelled("receive-loop fault handler reported DISCONNECTED but scheduled no connect()")
                     if slept30:
                         labs.append([f"ARxSleepDone {cb}", None])
                     else:
@@ -544,6 +558,8 @@ def labelise(blocks):
                     labs.append([f"ARxIter (RxSleep30 {snap['buf']})", None])
                 i += 1
             if _scb_resumed(evs):
+                if not _has(evs, "spawn", "connect"):
+                    raise Unlabelled("receive-loop fault handler resumed after the status callback but scheduled no connect()")
                 labs.insert(0, ["ARxCbDone", None])
             # a trailing _receive_impl that neither returned nor raised nor sleeps: suspended in the read
             depth = 0
@@ -568,7 +584,7 @@ def labelise(blocks):
                     raise Unlabelled(f"receive-loop micro-block without snapshot: {a}")
                 add(a, s)
         elif k == "_process_queue":
-            if how.startswith("throw"):
+            if how == "throw:CancelledError":
                 if end != "exc:CancelledError":
                     raise Unlabelled("queue consumer survived a cancellation")
                 add("AConsCancelled", snap)
@@ -603,11 +619,15 @@ def labelise(blocks):
             if _has(evs, "enter", "send"):
                 head = "ASendEntry"
             elif _scb_resumed(evs):
+                if not _has(evs, "spawn", "connect"):
+                    raise Unlabelled("send fault handler resumed after the status callback but scheduled no connect()")
                 add("ASendCbDone", snap)
                 continue
             else:
                 head = "ASendDrainDone"
             if _has(evs, "enter", "_update_state") or _has(evs, "spawn", "connect"):
+                if _cb_of(evs) != "CbSusp" and not _has(evs, "spawn", "connect"):
+                    raise Unlabelled("send fault handler reported DISCONNECTED but scheduled no connect()")
                 o = f"(SFault {_cb_of(evs)})"
             elif end == "susp":
                 o = "SDrainSusp"
@@ -635,7 +655,7 @@ def coq_snap(s) -> str:
     b = lambda x: "true" if x else "false"  # noqa: E731
     wid = s["wid"]
     return (f"(mkSnap {s['st']} {b(s['lock'])} {b(s['rx'])} {b(s['cons'])} "
-            f"{'(' + str(wid) + ')' if wid < 0 else wid} {b(s['wclosed'])} {s['q']})")
+            f"{'(' + str(wid) + ')' if wid < 0 else wid} {b(s['wclosed'])} {s['q']} {s['pc']})")
 
 
 def coq_trace(labels) -> str:
@@ -685,7 +705,7 @@ async def _session(spec, tr, gw, obs, loop):
     obs.update(status=status, rcb=rcbs, beats=beats)
 
     async def on_status(s):
-        status.append([loop.time(), s.value])
+        status.append([loop.time(), s.value, bool(tr.client.lock.locked())])
         if s.value == 2 and "at_closed" not in obs:
             obs["at_closed"] = {"attempts": len(gw.attempt_times), "writers": len(gw.writers)}
         tr.ev("scb", s.value, "enter")
@@ -732,8 +752,8 @@ async def _session(spec, tr, gw, obs, loop):
         """one user / peer action; synchronous (tasks are created, not awaited)"""
         name = op[0]
         if name == "connect":
-            tr.user("connect")
             user_tasks.append(loop.create_task(client.connect()))
+            tr.user("connect")
         elif name == "close":
             if close_info["called"] is None:
                 close_info["called"] = loop.time()
